@@ -484,6 +484,63 @@ class CounterInduction(ast.NodeTransformer):
         return out
 
 
+class AliasInline(ast.NodeTransformer):
+    """`v = p.a.b` (an attribute chain rooted at a parameter, v bound once, neither the chain nor a prefix / extension of it nor its
+    root assigned anywhere in the function)  ->  the chain itself at every read of v.  A value that was merely given a shorter name
+    is the same value for every rule, whether or not it has the name."""
+
+    def visit_FunctionDef(self, fn):
+        self.generic_visit(fn)
+        params = {a.arg for a in ast.walk(fn.args) if isinstance(a, ast.arg)}
+        stores = {}
+        for n in ast.walk(fn):
+            if isinstance(n, ast.Name) and isinstance(n.ctx, (ast.Store, ast.Del)):
+                stores[n.id] = stores.get(n.id, 0) + 1
+            elif isinstance(n, (ast.Global, ast.Nonlocal)):
+                for nm in n.names:
+                    stores[nm] = 99
+            elif isinstance(n, ast.ExceptHandler) and n.name:
+                stores[n.name] = stores.get(n.name, 0) + 1
+        stored_chains = {ast.unparse(n) for n in ast.walk(fn) if isinstance(n, ast.Attribute) and isinstance(n.ctx, (ast.Store, ast.Del))}
+        stored_chains |= {ast.unparse(n.value) for n in ast.walk(fn) if isinstance(n, ast.Subscript) and isinstance(n.ctx, (ast.Store, ast.Del))}
+
+        def chain_root(e):
+            while isinstance(e, ast.Attribute):
+                e = e.value
+            return e.id if isinstance(e, ast.Name) else None
+        aliases = {}
+        for st in fn.body:           # top level of the function only: the alias is defined on every path that follows
+            if isinstance(st, ast.Assign) and len(st.targets) == 1 and isinstance(st.targets[0], ast.Name) and isinstance(st.value, ast.Attribute):
+                v = st.targets[0].id
+                r = chain_root(st.value)
+                t = ast.unparse(st.value)
+                if v in params or stores.get(v, 0) != 1 or r not in params or stores.get(r, 0) or \
+                        any(sc == t or sc.startswith(t + '.') or t.startswith(sc + '.') for sc in stored_chains):
+                    continue
+                aliases[v] = st
+        if not aliases:
+            return fn
+        # a nested function / lambda / comprehension that binds the same name shadows it: leave those functions alone
+        for n in ast.walk(fn):
+            if n is not fn and isinstance(n, (ast.FunctionDef, ast.AsyncFunctionDef, ast.Lambda)):
+                bound = {a.arg for a in ast.walk(n.args) if isinstance(a, ast.arg)}
+                for v in list(aliases):
+                    if v in bound:
+                        del aliases[v]
+            elif isinstance(n, ast.comprehension):
+                for x in ast.walk(n.target):
+                    if isinstance(x, ast.Name) and x.id in aliases:
+                        del aliases[x.id]
+        if not aliases:
+            return fn
+        m = {v: st.value for v, st in aliases.items()}
+        drop = {id(st) for st in aliases.values()}
+        fn.body = [_SubstTable(m).visit(st) for st in fn.body if id(st) not in drop] or [ast.Pass()]
+        return fn
+
+    visit_AsyncFunctionDef = visit_FunctionDef
+
+
 class ToAug(ast.NodeTransformer):
     """`x = x + e` -> `x += e` (plain names; one spelling of an update)"""
 
@@ -567,6 +624,7 @@ def simplify_tree(tree):
     consts = {k: v for k, v in consts.items() if k.lstrip('.') not in bound_in_fns or k.startswith('.')}
     tree = TableUnroll(consts).visit(tree)
     tree = LambdaInline().visit(tree)
+    tree = AliasInline().visit(tree)
     tree = ToAug().visit(tree)
     tree = CounterInduction().visit(tree)
     tree = FlagThread().visit(tree)
